@@ -31,7 +31,7 @@ class Pass2:
         self.fi = self._inner(self.fill)
         self.i_c, self.i_f = self.ci.target.id, self.fi.target.id
         mod = src.tree(GH)
-        self.ci.body = sink_selector(inline_decision_inputs(hoist_decisions(self.ci.body), mod))
+        self.ci.body = sink_selector(inline_decision_inputs(hoist_decisions(markers_from_occupations(self.ci.body)), mod))
         self.fi.body = sink_selector(self.fi.body)
         for lp_ in (self.ci, self.fi):
             for st_ in lp_.body:
@@ -244,6 +244,81 @@ def _relink(root):
     for n_ in ast.walk(root):
         for ch in ast.iter_child_nodes(n_):
             ch._parent = n_
+
+
+def markers_from_occupations(stmts):
+    """Normal form for slice edges computed from per-tracer occupations.  In
+
+           n1 = 0.0;  if want_1: ...; n1 = E1        n2 = 0.0;  if want_2: ...; n2 = E2      ...
+           M1 = n1;  M2 = M1 + n2;  M3 = M2 + n3
+
+    every n_k is bound exactly twice (the zero, and once inside a top-level `if`), is read only by the edge statements, and the zero of
+    n_k comes after the `if` that binds n_(k-1).  Then the edges are the running sums  M1 = 0; if want_1: M1 += E1;  M2 = M1; if want_2:
+    M2 += E2; ...  (0 + x and x + 0.0 are exact; the edges are only compared).  The statements are rewritten into that form."""
+    n = len(stmts)
+    # the trailing group of edge statements
+    edges = []
+    for i, st in enumerate(stmts):
+        if isinstance(st, ast.Assign) and len(st.targets) == 1 and isinstance(st.targets[0], ast.Name):
+            v = st.value
+            if not edges and isinstance(v, ast.Name):
+                edges.append((i, st.targets[0].id, None, v.id))
+            elif edges and isinstance(v, ast.BinOp) and isinstance(v.op, ast.Add) and isinstance(v.left, ast.Name) and isinstance(v.right, ast.Name) \
+                    and v.left.id == edges[-1][1] and i == edges[-1][0] + 1:
+                edges.append((i, st.targets[0].id, v.left.id, v.right.id))
+            elif edges and len(edges) < 2:
+                edges = [(i, st.targets[0].id, None, v.id)] if isinstance(v, ast.Name) else []
+            elif not edges and isinstance(v, ast.BinOp) and isinstance(v.op, ast.Add) and isinstance(v.left, ast.Name) and isinstance(v.right, ast.Name) \
+                    and any(isinstance(z_, ast.Assign) and len(z_.targets) == 1 and isinstance(z_.targets[0], ast.Name) and z_.targets[0].id == v.left.id
+                            and isinstance(z_.value, ast.Constant) and z_.value.value in (0, 0.0) for z_ in stmts[:i]):
+                # the first edge is its own occupation (M1 = 0.0; if want_1: M1 = E1): a copy M1 = n1 that was already propagated
+                edges.append((-1, v.left.id, None, v.left.id))
+                edges.append((i, st.targets[0].id, v.left.id, v.right.id))
+        elif edges and len(edges) < 2:
+            edges = []
+        if len(edges) >= 2 and (i + 1 >= n or not (isinstance(stmts[i + 1], ast.Assign) and isinstance(stmts[i + 1].value, ast.BinOp))):
+            break
+    if len(edges) < 2:
+        return stmts
+    occ = [e[3] for e in edges]
+    marks = [e[1] for e in edges]
+    first_edge = min(e[0] for e in edges if e[0] >= 0)
+    plan = []
+    last_if = -1
+    for k, nk in enumerate(occ):
+        zeros = [(i, st) for i, st in enumerate(stmts[:first_edge]) if isinstance(st, ast.Assign) and len(st.targets) == 1 and isinstance(st.targets[0], ast.Name)
+                 and st.targets[0].id == nk and isinstance(st.value, ast.Constant) and st.value.value in (0, 0.0) and not isinstance(st.value.value, bool)]
+        binds = []
+        for i, st in enumerate(stmts[:first_edge]):
+            if isinstance(st, ast.If) and not st.orelse:
+                for b in st.body:
+                    if isinstance(b, ast.Assign) and len(b.targets) == 1 and isinstance(b.targets[0], ast.Name) and b.targets[0].id == nk:
+                        binds.append((i, st, b))
+        all_stores = sum(1 for st in stmts for x in ast.walk(st) if isinstance(x, ast.Name) and x.id == nk and isinstance(x.ctx, ast.Store))
+        all_loads = sum(1 for st in stmts for x in ast.walk(st) if isinstance(x, ast.Name) and x.id == nk and isinstance(x.ctx, ast.Load))
+        mk_other = sum(1 for st in stmts for x in ast.walk(st) if isinstance(x, ast.Name) and x.id == marks[k] and isinstance(x.ctx, ast.Store))
+        selfocc = nk == marks[k]
+        if selfocc:
+            # reads of the edge itself (by the next edge and the decision) are expected; it is bound only by its zero and its `if`
+            if len(zeros) != 1 or len(binds) != 1 or all_stores != 2 or not (last_if < zeros[0][0] < binds[0][0]):
+                return stmts
+        elif len(zeros) != 1 or len(binds) != 1 or all_stores != 2 or all_loads != 1 or mk_other != 1 or not (last_if < zeros[0][0] < binds[0][0]):
+            return stmts
+        if any(isinstance(x, ast.Name) and x.id == nk for x in ast.walk(binds[0][2].value)):
+            return stmts
+        plan.append((zeros[0][1], binds[0][1], binds[0][2]))
+        last_if = binds[0][0]
+    out = list(stmts)
+    for k, (z, ifst, b) in enumerate(plan):
+        init = ast.Constant(value=0) if k == 0 else ast.Name(id=marks[k - 1], ctx=ast.Load())
+        out[out.index(z)] = ast.copy_location(ast.Assign(targets=[ast.Name(id=marks[k], ctx=ast.Store())], value=init, lineno=z.lineno), z)
+        ifst.body[ifst.body.index(b)] = ast.copy_location(ast.AugAssign(target=ast.Name(id=marks[k], ctx=ast.Store()), op=ast.Add(), value=b.value), b)
+    drop = {id(stmts[e[0]]) for e in edges if e[0] >= 0}
+    out = [st for st in out if id(st) not in drop]
+    for st in out:
+        ast.fix_missing_locations(st)
+        _relink(st)
+    return out
 
 
 def hoist_decisions(stmts):
